@@ -444,6 +444,10 @@ func (g *cgraph) defineLoad(x *ssa.UnOp, key string) {
 	}
 	g.defineMatchIndex(x, key)
 	g.defineFindAllElem(x, key)
+	if lo, hi, ok := localTableField(x); ok {
+		g.le(key, zeroTerm, hi)
+		g.le(zeroTerm, key, -lo)
+	}
 	ia, ok := x.X.(*ssa.IndexAddr)
 	if !ok {
 		return
@@ -1176,4 +1180,144 @@ func (a *NilAnalysis) pathOf(addr ssa.Value, depth int) string {
 		return "fv:" + x.Name()
 	}
 	return ""
+}
+
+// localTableField: x loads integer field F of a row of a literal table built in the function itself
+// ([]struct{…}{{…}, {…}} ranged over, directly or through the loop variable's cell): the value lies between the
+// least and the greatest constant the literal gives F. The table must only be initialised with constants and
+// read (indexed, sliced whole, measured).
+func localTableField(x *ssa.UnOp) (int64, int64, bool) {
+	if x.Op != token.MUL || !isIntegerT(x.Type()) {
+		return 0, 0, false
+	}
+	fa, ok := x.X.(*ssa.FieldAddr)
+	if !ok {
+		return 0, 0, false
+	}
+	rowAddr := func(v ssa.Value) (*ssa.Alloc, bool) {
+		ia, ok := v.(*ssa.IndexAddr)
+		if !ok {
+			return nil, false
+		}
+		base := ia.X
+		if sl, ok := base.(*ssa.Slice); ok && sl.Low == nil && sl.High == nil {
+			base = sl.X
+		}
+		al, ok := base.(*ssa.Alloc)
+		if !ok {
+			return nil, false
+		}
+		if _, isArr := al.Type().Underlying().(*types.Pointer).Elem().Underlying().(*types.Array); !isArr {
+			return nil, false
+		}
+		return al, true
+	}
+	table, ok := rowAddr(fa.X)
+	if !ok {
+		cell, isCell := fa.X.(*ssa.Alloc)
+		if !isCell {
+			return 0, 0, false
+		}
+		// the loop variable's cell: only whole-row copies out of one table are stored into it
+		for _, r := range *cell.Referrers() {
+			switch y := r.(type) {
+			case *ssa.Store:
+				if y.Addr != ssa.Value(cell) {
+					return 0, 0, false
+				}
+				u, ok := y.Val.(*ssa.UnOp)
+				if !ok || u.Op != token.MUL {
+					return 0, 0, false
+				}
+				t, ok := rowAddr(u.X)
+				if !ok || (table != nil && t != table) {
+					return 0, 0, false
+				}
+				table = t
+			case *ssa.FieldAddr:
+				for _, r2 := range *y.Referrers() {
+					if st, ok := r2.(*ssa.Store); ok && st.Addr == ssa.Value(y) {
+						return 0, 0, false
+					}
+				}
+			case *ssa.DebugRef:
+			default:
+				return 0, 0, false
+			}
+		}
+		if table == nil {
+			return 0, 0, false
+		}
+	}
+	var lo, hi int64
+	n := 0
+	readOnly := func(refs []ssa.Instruction) bool {
+		for _, r := range refs {
+			switch y := r.(type) {
+			case *ssa.IndexAddr:
+				for _, r2 := range *y.Referrers() {
+					switch z := r2.(type) {
+					case *ssa.Store:
+						if z.Addr == ssa.Value(y) {
+							return false // whole-row store: not read here
+						}
+					case *ssa.FieldAddr:
+						for _, r3 := range *z.Referrers() {
+							st, ok := r3.(*ssa.Store)
+							if !ok || st.Addr != ssa.Value(z) {
+								continue
+							}
+							if _, isC := y.Index.(*ssa.Const); !isC {
+								return false
+							}
+							if z.Field != fa.Field {
+								continue
+							}
+							c, ok := constInt(stripConv(st.Val))
+							if !ok {
+								return false
+							}
+							if n == 0 || c < lo {
+								lo = c
+							}
+							if n == 0 || c > hi {
+								hi = c
+							}
+							n++
+						}
+					case *ssa.UnOp, *ssa.DebugRef:
+					default:
+						return false
+					}
+				}
+			case *ssa.DebugRef:
+			case *ssa.Call:
+				if bi, ok := y.Call.Value.(*ssa.Builtin); !ok || (bi.Name() != "len" && bi.Name() != "cap") {
+					return false
+				}
+			default:
+				return false
+			}
+		}
+		return true
+	}
+	var refs []ssa.Instruction
+	for _, r := range *table.Referrers() {
+		if sl, ok := r.(*ssa.Slice); ok {
+			if sl.Low != nil || sl.High != nil {
+				return 0, 0, false
+			}
+			refs = append(refs, *sl.Referrers()...)
+			continue
+		}
+		refs = append(refs, r)
+	}
+	if !readOnly(refs) {
+		return 0, 0, false
+	}
+	at := table.Type().Underlying().(*types.Pointer).Elem().Underlying().(*types.Array)
+	if int64(n) != at.Len() {
+		return 0, 0, false // a row leaves the field at zero
+	}
+	return lo, hi, true
 }
